@@ -60,7 +60,7 @@ func main() {
 			fmt.Fprintln(os.Stderr, "instr:", err)
 			os.Exit(2)
 		}
-		fmt.Printf("instrumented %d statements (%d write sites) over %d package-level variables: %v\n", res.Sites, res.Writes, len(res.Vars), res.Vars)
+		fmt.Printf("instrumented %d statements (%d write sites) over %d package-level variables: %v; %d heap-write sites\n", res.Sites, res.Writes, len(res.Vars), res.Vars, res.Heap)
 	case "run":
 		adhoc(os.Args[2:])
 	case "worker":
